@@ -666,6 +666,9 @@ static int _open_seekable2(OggVorbis_File *vf){
                               vf->serialnos+2,vf->serialnos[1],0)<0)return(OV_EREAD);
 
   vf->offsets[0]=0;
+  /* the last link ends where the data ends, not where its last page
+     begins: the seek bisection must be able to reach that page */
+  vf->offsets[vf->links]=vf->end;
   vf->serialnos[0]=serialno;
   vf->dataoffsets[0]=dataoffset;
   vf->pcmlengths[0]=pcmoffset;
